@@ -335,6 +335,16 @@ def main(argv):
         try:
             mod = import_component(cname)
             r = mod.run(ctx)
+            if isinstance(r, dict) and r.get("inconclusive") and not r.get("violations") and not r.get("disagreements"):
+                # a coverage floor missed on a slow / loaded machine: one more try with three times the budget
+                first = r["inconclusive"]
+                ctx.budget_s *= 3
+                try:
+                    r2 = mod.run(ctx)
+                finally:
+                    ctx.budget_s /= 3
+                r2.setdefault("notes", "first attempt inconclusive (%s); this is the second attempt" % str(first)[:200])
+                r = r2
         except Exception:
             r = {"name": cname, "error": traceback.format_exc()[-3000:]}
         finally:
